@@ -1,5 +1,5 @@
 (* C13 -- velocities are finite differences of tracked vertices over real elapsed time.  Statements only. *)
-From Coq Require Import Reals ZArith QArith List Bool.
+From Coq Require Import Reals ZArith QArith List Bool Permutation.
 From Forsys Require Import Model.Num Model.PyList Model.Tracking Model.ForceSys Model.Velocity Proofs.TrackingProofs Proofs.ForceSysProofs Proofs.VelocityProofs.
 Import ListNotations.
 
@@ -55,6 +55,10 @@ Example C13_example :
   = Some ((1 - 0) / (2 - 0), (4 - 0) / (2 - 0))%Q.
 Proof. vm_compute. reflexivity. Qed.
 
+(* ... and does not depend on the order in which the junctions are listed (independent numbering of each frame) *)
+Theorem C13_mean_speed_order_independent : forall vs vs' : list (R * R), Permutation vs vs' -> mean_speed ROps vs = mean_speed ROps vs'.
+Proof. exact mean_speed_order_independent. Qed.
+
 Print Assumptions C13_velocity_forward.
 Print Assumptions C13_velocity_backward_last.
 Print Assumptions C13_velocity_no_partner.
@@ -63,3 +67,4 @@ Print Assumptions C13_rhs_static.
 Print Assumptions C13_mean_speed_counts_every_junction.
 Print Assumptions C13_resting_junction_counts.
 Print Assumptions C13_dimensional_normaliser_is_one.
+Print Assumptions C13_mean_speed_order_independent.
